@@ -746,7 +746,93 @@ def t_inline_client_field(p, rng):
     return q
 
 
-TRANSFORMS = [t_permute, t_duplicate_under_alias, t_extract_client_field, t_inline_client_field]
+_LITS = {"Int": [("int", 32), ("int", 7)], "String": [("str", "lit"), ("str", "other")], "Boolean": [("bool", True), ("bool", False)],
+         "ID": [("str", "id9")], "Float": [("int", 3)]}
+
+
+def add_literal_sibling(p, rng):
+    """Not a transformation of meaning but a richer BASE program: next to a top-level selection `f(arg: $v)` of a
+    reachable client field add `sibN: f(arg: <literal>)`, so that later transformations find the same field selected
+    with a variable and with a literal at one place."""
+    reach = {d.ident() for d in _reachable_decls(p)}
+    sites = []
+    for di, d in enumerate(p.decls):
+        if d.kind != "field" or d.sels is None or d.ident() not in reach:
+            continue
+        vt = {n: t for n, t, _dv in d.variables}
+        for si, s in enumerate(d.sels):
+            if s.kind == "scalar" and _server(p, s) and not s.directives:
+                for ai, (a, v) in enumerate(s.args):
+                    if v[0] == "var" and v[1] in vt and list_depth(vt[v[1]]) == 0 and base(vt[v[1]]) in _LITS:
+                        sites.append((di, si, ai))
+    site = _pick(rng, sites)
+    if not site:
+        return None
+    q = _fork(p)
+    d = q.decls[site[0]]
+    s = d.sels[site[1]]
+    a, v = s.args[site[2]]
+    t = {n: t for n, t, _dv in d.variables}[v[1]]
+    c = s.clone()
+    c.args[site[2]] = (a, rng.choice(_LITS[base(t)]))
+    keys = {x.key() for x in d.sels}
+    c.alias = next(k for k in (f"sib{j}" for j in range(100)) if k not in keys)
+    d.sels.insert(rng.randint(0, len(d.sels)), c)
+    q.render_files()
+    return q
+
+
+def t_parametrize_literal(p, rng):
+    """Replace a top-level selection `f(arg: <literal>)` of a reachable client field by a new client field
+    `N($x: T) { f(arg: $x) }` selected as `N(x: <literal>)`.  The parameter is NAMED like one of the parent's own
+    variables when possible: client field variables are local, a name collision must not matter."""
+    reach = {d.ident() for d in _reachable_decls(p)}
+    sites = []
+    for di, d in enumerate(p.decls):
+        if d.kind != "field" or d.sels is None or d.ident() not in reach:
+            continue
+        for si, s in enumerate(d.sels):
+            if s.kind == "scalar" and _server(p, s) and not s.directives:
+                ad = argdefs_of(p, s) or {}
+                for ai, (a, v) in enumerate(s.args):
+                    if v[0] in ("int", "str", "bool") and a in ad and list_depth(ad[a][0]) == 0 and base(ad[a][0]) in _LITS:
+                        sites.append((di, si, ai))
+    site = _pick(rng, sites)
+    if not site:
+        return None
+    q = _fork(p)
+    d = q.decls[site[0]]
+    s = d.sels[site[1]]
+    a, lit = s.args[site[2]]
+    at = argdefs_of(q, s)[a][0]
+    # prefer the name of a parent variable of the same type that is used on the same field elsewhere in the set
+    same_type = [n for n, t, _dv in d.variables if type_str(t) == type_str(at) or type_str(isogen.strip_nn(t)) == type_str(isogen.strip_nn(at))]
+    used_on_same_field = [v[1] for x in d.sels if x is not s and x.name == s.name for _a, v in x.args if v[0] == "var"]
+    pref = [n for n in same_type if n in used_on_same_field] or same_type
+    passthrough = []
+    for _a2, v2 in s.args:
+        for n in vars_in_value(v2):
+            if n not in passthrough:
+                passthrough.append(n)
+    pname = next((n for n in pref if n not in passthrough), None) or next(n for n in (f"p{j}" for j in range(100)) if n not in passthrough and all(n != x for x, _t, _d in d.variables))
+    vdefs = [(pname, at, None)] + [(n, t, None) for n, t, _dv in d.variables if n in passthrough]
+    new_name = "Param" + str(rng.randint(0, 99))
+    if q.decl(f"{d.parent}.{new_name}") is not None or new_name in q.schema.types[d.parent]["fields"]:
+        return None
+    inner = s.clone()
+    inner.args[site[2]] = (a, ("var", pname))
+    nd = Decl("field", d.parent, new_name, vdefs, [], [inner])
+    nd.file, nd.export_name, nd.header_ws = d.file, new_name, None
+    sel = Sel("client", new_name, d.parent, None, None, [(pname, lit)] + [(n, ("var", n)) for n in passthrough], [], None, nd.ident())
+    d.sels[site[1]] = sel
+    q.decls.insert(q.decls.index(d), nd)
+    q.render_files()
+    q.transformation = {"t": "parametrize-literal", "where": f"{d.ident()}: {s.name}({a}: {isogen.iso_value(lit)}) -> {new_name}({pname}: ...)",
+                        "collides_with_parent_variable": pname in [n for n, _t, _d in d.variables]}
+    return q
+
+
+TRANSFORMS = [t_permute, t_duplicate_under_alias, t_extract_client_field, t_inline_client_field, t_parametrize_literal]
 
 
 # ---------------------------------------------------------------------------
